@@ -665,6 +665,11 @@ func ruleR03d(c *Ctx, r *Report) {
 			}
 			a := env.of(ci.Call.Args[2])
 			if !(a.equal(affAtom("target")) || a.equal(affAtom("target").add(affAtom("cur"), -1))) {
+				// one CopyN behind the whence cases: the distance is a merge, and each input is the
+				// distance of the case it comes from (io.SeekStart: target - current, io.SeekCurrent: target)
+				if ph, isPhi := canon(ci.Call.Args[2]).(*ssa.Phi); isPhi && len(fn.Params) >= 3 && seekDistanceMerge(fn, ph, env) {
+					return
+				}
 				bad = fmt.Sprintf("io.CopyN at %s drops %s bytes; a forward seek must drop exactly the distance (target, or target - current offset)", c.Pos(in.Pos()), a.String())
 			}
 		})
@@ -679,6 +684,86 @@ func ruleR03d(c *Ctx, r *Report) {
 			r.Hold(key, c.Pos(fn.Pos()), fmt.Sprintf("%d io.CopyN call(s), each of exactly the seek distance", n))
 		}
 	}
+}
+
+// seekDistanceMerge: every input of the merged distance comes from under one `whence == k` outcome
+// and is that case's distance.
+func seekDistanceMerge(fn *ssa.Function, ph *ssa.Phi, env *AffEnv) bool {
+	whence := fn.Params[2]
+	under := map[int64]*ssa.BasicBlock{}         // k -> the block entered when whence == k
+	notUnder := map[int64][][2]*ssa.BasicBlock{} // k -> (test block, block entered when whence != k)
+	for _, b := range fn.Blocks {
+		if len(b.Instrs) == 0 {
+			continue
+		}
+		iff, ok := b.Instrs[len(b.Instrs)-1].(*ssa.If)
+		if !ok {
+			continue
+		}
+		base, neg := condNorm(iff.Cond)
+		cmp, ok := base.(*ssa.BinOp)
+		if !ok || cmp.Op != token.EQL && cmp.Op != token.NEQ {
+			continue
+		}
+		var k int64
+		var isK bool
+		switch {
+		case canon(cmp.X) == ssa.Value(whence):
+			k, isK = constInt(cmp.Y)
+		case canon(cmp.Y) == ssa.Value(whence):
+			k, isK = constInt(cmp.X)
+		}
+		if !isK {
+			continue
+		}
+		eq := cmp.Op == token.EQL
+		if neg {
+			eq = !eq
+		}
+		if eq {
+			under[k] = b.Succs[0]
+			notUnder[k] = append(notUnder[k], [2]*ssa.BasicBlock{b, b.Succs[1]})
+		} else {
+			under[k] = b.Succs[1]
+			notUnder[k] = append(notUnder[k], [2]*ssa.BasicBlock{b, b.Succs[0]})
+		}
+	}
+	if len(under) == 0 {
+		return false
+	}
+	for i, e := range ph.Edges {
+		p := ph.Block().Preds[i]
+		var want *Aff
+		var best *ssa.BasicBlock
+		for k, sb := range under {
+			if sb == p || sb.Dominates(p) {
+				if best != nil && !best.Dominates(sb) {
+					continue // keep the innermost case
+				}
+				w := affAtom("target")
+				if k == 0 { // io.SeekStart
+					w = affAtom("target").add(affAtom("cur"), -1)
+				} else if k != 1 { // io.SeekCurrent
+					return false
+				}
+				want, best = &w, sb
+			}
+		}
+		if want == nil {
+			// the "not io.SeekStart" side of the test, behind a guard that has refused everything but
+			// io.SeekStart and io.SeekCurrent: io.SeekCurrent
+			for _, nb := range notUnder[0] {
+				if (nb[0] == p && ph.Block() == nb[1]) || nb[1] == p || nb[1].Dominates(p) && nb[1] != ph.Block() {
+					w := affAtom("target")
+					want = &w
+				}
+			}
+		}
+		if want == nil || !env.of(e).equal(*want) {
+			return false
+		}
+	}
+	return true
 }
 
 // ruleR03e: DataSize is payload-relative, so whatever is compared with it must be re-based too.
@@ -815,8 +900,8 @@ func ruleR03g(c *Ctx, r *Report) {
 	}
 	key := "getall-enumerates@" + fnKey(fn)
 	var it *ssa.Function
-	if len(fn.AnonFuncs) == 1 {
-		it = fn.AnonFuncs[0]
+	if len(closuresOf(fn)) == 1 {
+		it = closuresOf(fn)[0]
 	} else {
 		// the iterator handed to the tree walk as a method value or a named function
 		eachInstr(fn, func(in ssa.Instruction) {
